@@ -51,8 +51,12 @@ theorem applyOp_inv {s s' : State} {op : Op} (h : Inv s) (hs : applyOp s op = .o
     exact ⟨k1, k2, fun _ => k3⟩
   | deposit who id amt =>
     simp only [applyOp] at hs
-    split_ifs at hs
-    obtain ⟨k1, k2, k3⟩ := addDeposit_inv h hs
+    split_ifs at hs with hv
+    have hpos : allPos amt = true := by
+      cases h1 : allPos amt
+      · simp [validAmt, h1] at hv
+      · rfl
+    obtain ⟨k1, k2, k3⟩ := addDeposit_inv h hpos hs
     exact ⟨k1, k2, fun _ => k3⟩
   | vote id v =>
     obtain ⟨k1, k2, k3⟩ := addVote_inv h hs
